@@ -1573,10 +1573,24 @@ impl World {
                     2 => rn.skip_bcast_commit(v & 1 == 1),
                     3 => rn.set_priority([0i64, 1, 2, -1][(v & 3) as usize]),
                     4 => rn.raft.set_max_committed_size_per_ready([NO_LIMIT, 0, 30, 100][(v & 3) as usize]),
-                    _ => {
+                    5 => {
                         if allow_unpersisted && rn.raft.state == StateRole::Leader {
                             rn.raft.set_max_apply_unpersisted_log_limit([0u64, 1, 3, 0][(v & 3) as usize]);
                         }
+                    }
+                    6 => rn.raft.enable_group_commit(v & 1 == 1),
+                    _ => {
+                        // commit groups from the bits of v (group ids 1 or 2; some peers left unassigned)
+                        let mut ids = vec![];
+                        for id in 1..=NN as u64 {
+                            if v >> (id - 1) & 1 == 1 {
+                                ids.push((id, 1 + (v as u64 >> id) % 2));
+                            }
+                        }
+                        if v & 0x80 != 0 {
+                            rn.raft.clear_commit_group();
+                        }
+                        rn.raft.assign_commit_groups(&ids);
                     }
                 });
                 true
@@ -1956,7 +1970,10 @@ impl World {
                     .map(|rn| rn.raft.raft_log.applied)
                     .max()
                     .unwrap_or(0);
-                let stuck_req = (0..NN).filter_map(|i| self.nodes[i].rn.as_ref()).any(|rn| rn.raft.pending_request_snapshot > lead_applied);
+                let stuck_req = (0..NN).filter_map(|i| self.nodes[i].rn.as_ref()).any(|rn| {
+                    rn.raft.pending_request_snapshot > lead_applied
+                        || (rn.raft.state == StateRole::Leader && rn.raft.prs().iter().any(|(_, p)| p.pending_request_snapshot > rn.raft.raft_log.applied))
+                });
                 let mon_name = if stuck_req { "no-convergence-after-stabilisation:snapshot-request-beyond-leader-applied" } else { "no-convergence-after-stabilisation" };
                 self.mon.violation(
                     "C10",
